@@ -1,7 +1,374 @@
-// correspondence + search binary for property C05 (stub)
+// C05 — suit-isomorphism canonicalisation: the real `Permutation::from`, `Permutation::permute`,
+// `Isomorphism::from`, `Isomorphism::is_canonical` against the Lean model (`canon` / `permute` lines)
+// and against the search oracle, which is written from the property statement only:
+//   * the 24 rows of `Permutation::exhaust()` are the 24 relabelings (own card-by-card relabel),
+//   * canon is constant on the 24 images of an observation,
+//   * canon(o) is one of the 24 images (pocket and board relabeled apart, by one relabeling),
+//   * the permutation reported by `Permutation::from` is a bijection and produces canon(o),
+//   * canon(canon o) = canon o, canon o is recognised by `is_canonical`,
+//   * exactly one of the distinct images is recognised as canonical (one representative per orbit).
+use robopoker::cards::hand::Hand;
+use robopoker::cards::isomorphism::Isomorphism;
+use robopoker::cards::observation::Observation;
+use robopoker::cards::permutation::Permutation;
+use rpharness::*;
+
+type Pi = [u8; 4];
+
+/// the specification of "relabel suits by π": card 4r+s ↦ 4r+π[s]
+fn relabel(pi: &Pi, h: u64) -> u64 {
+    let mut out = 0u64;
+    let mut rest = h;
+    while rest != 0 {
+        let i = rest.trailing_zeros() as usize;
+        out |= 1u64 << (4 * (i / 4) + pi[i % 4] as usize);
+        rest &= rest - 1;
+    }
+    out
+}
+
+/// all 24 bijections of {0,1,2,3}, generated here (not copied from the repository)
+fn s4() -> Vec<Pi> {
+    let mut v = vec![];
+    for a in 0..4u8 {
+        for b in 0..4u8 {
+            for c in 0..4u8 {
+                for d in 0..4u8 {
+                    let p = [a, b, c, d];
+                    let mut seen = [false; 4];
+                    p.iter().for_each(|&x| seen[x as usize] = true);
+                    if seen.iter().all(|&x| x) {
+                        v.push(p);
+                    }
+                }
+            }
+        }
+    }
+    v
+}
+
+/// the suit images of a real Permutation, read through its Display impl ("c -> d" per line)
+fn digits(p: &Permutation) -> Option<Pi> {
+    let s = format!("{p}");
+    let mut out = [9u8; 4];
+    let code = |c: &str| match c.trim() {
+        "c" => Some(0u8),
+        "d" => Some(1),
+        "h" => Some(2),
+        "s" => Some(3),
+        _ => None,
+    };
+    let mut n = 0;
+    for line in s.lines() {
+        let (a, b) = line.split_once("->")?;
+        out[code(a)? as usize] = code(b)?;
+        n += 1;
+    }
+    if n == 4 && out.iter().all(|&x| x < 4) { Some(out) } else { None }
+}
+
+fn pistr(p: &Pi) -> String {
+    p.iter().map(|d| d.to_string()).collect()
+}
+
+#[derive(Default)]
+struct Part {
+    evaluations: u64,
+    spec_checked: u64,
+    fails: Vec<(String, String, String, String)>,
+    fail_count: u64,
+    dist: std::collections::BTreeMap<String, u64>,
+    canon: Vec<(u64, u64)>,
+    lines: Vec<(String, String)>,
+}
+impl Part {
+    fn fail(&mut self, class: &str, input: &str, expected: &str, got: &str) {
+        self.fail_count += 1;
+        if self.fails.len() < 40 {
+            self.fails.push((class.into(), input.into(), expected.into(), got.into()));
+        }
+    }
+}
+
+struct Ctx {
+    deck: &'static str,
+    table: Vec<(Permutation, Pi)>, // exhaust() rows with the relabeling they denote
+}
+
+fn street(n: u32) -> &'static str {
+    match n {
+        0 => "preflop",
+        3 => "flop",
+        4 => "turn",
+        5 => "river",
+        _ => "other",
+    }
+}
+
+/// one observation: correspondence lines (the canon line when `canon_line`, the permute lines of the
+/// relabelings listed in `picks` when `lines`) and the complete oracle over the 24 images
+fn case(ctx: &Ctx, part: &mut Part, pocket: u64, board: u64, canon_line: bool, lines: bool, picks: &[usize]) {
+    let deck = ctx.deck;
+    let input = format!("{deck} pocket={pocket} board={board}");
+    let res = catch(move || {
+        let o = Observation::from((Hand::from(pocket), Hand::from(board)));
+        let iso = Isomorphism::from(o);
+        let c = Observation::from(iso);
+        let perm = Permutation::from(&o);
+        (o, c, perm, Isomorphism::is_canonical(&o), Isomorphism::is_canonical(&c))
+    });
+    part.evaluations += 1;
+    let op = format!("{deck} canon {pocket} {board}");
+    let Some((o, c, perm, ico, icc)) = res else {
+        if canon_line {
+            part.lines.push((op.clone(), "panic".into()));
+        }
+        part.fail("canon-panics", &input, "a canonical form", "panic");
+        return;
+    };
+    let (cp, cb) = (u64::from(*c.pocket()), u64::from(*c.public()));
+    let pd = digits(&perm);
+    if canon_line {
+        let d = pd.map(|p| pistr(&p)).unwrap_or("????".into());
+        part.lines.push((op, format!("{cp} {cb} {d} {} {}", ico as u8, icc as u8)));
+    }
+    // ---- oracle
+    part.spec_checked += 1;
+    match pd {
+        None => part.fail("perm-not-four-suits", &input, "four suit images", &format!("{perm}").replace('\n', ";")),
+        Some(p) => {
+            let mut seen = [false; 4];
+            p.iter().for_each(|&x| seen[x as usize] = true);
+            if !seen.iter().all(|&x| x) {
+                part.fail("perm-not-bijective", &input, "a bijection on suits", &pistr(&p));
+            }
+            if relabel(&p, pocket) != cp || relabel(&p, board) != cb {
+                part.fail("canon-not-relabel-by-its-perm", &input,
+                    &format!("pocket={} board={} (relabel by {})", relabel(&p, pocket), relabel(&p, board), pistr(&p)),
+                    &format!("pocket={cp} board={cb}"));
+            }
+        }
+    }
+    if cp.count_ones() != 2 || cb.count_ones() != board.count_ones() || cp & cb != 0 {
+        part.fail("canon-not-an-observation-of-the-street", &input, "2 pocket cards, same board size, disjoint", &format!("pocket={cp} board={cb}"));
+    }
+    // images
+    let mut in_orbit = false;
+    let mut images: Vec<(u64, u64, bool)> = Vec::with_capacity(24);
+    for (k, (rp, pi)) in ctx.table.iter().enumerate() {
+        let (wp, wb) = (relabel(pi, pocket), relabel(pi, board));
+        let r = catch(move || {
+            let img = rp.permute(&o);
+            let ci = Observation::from(Isomorphism::from(img));
+            (u64::from(*img.pocket()), u64::from(*img.public()), u64::from(*ci.pocket()), u64::from(*ci.public()), Isomorphism::is_canonical(&img))
+        });
+        part.evaluations += 1;
+        let pop = format!("{deck} permute {} {pocket} {board}", pistr(pi));
+        let Some((ip, ib, cip, cib, ici)) = r else {
+            if lines && picks.contains(&k) {
+                part.lines.push((pop.clone(), "panic".into()));
+            }
+            part.fail("permute-panics", &pop, "an observation", "panic");
+            continue;
+        };
+        if lines && picks.contains(&k) {
+            part.lines.push((pop.clone(), format!("{ip} {ib}")));
+        }
+        part.spec_checked += 1;
+        if (ip, ib) != (wp, wb) {
+            part.fail("permute-not-the-relabeling", &pop, &format!("{wp} {wb}"), &format!("{ip} {ib}"));
+        }
+        if (cip, cib) != (cp, cb) {
+            part.fail("canon-not-invariant", &pop, &format!("canon of image = canon of original = {cp} {cb}"), &format!("{cip} {cib}"));
+        }
+        if (wp, wb) == (cp, cb) {
+            in_orbit = true;
+        }
+        images.push((wp, wb, ici));
+    }
+    if !in_orbit {
+        part.fail("canon-outside-orbit", &input, "one of the 24 relabelings of the input", &format!("pocket={cp} board={cb}"));
+    }
+    // idempotent / recognised
+    let r = catch(move || {
+        let cc = Observation::from(Isomorphism::from(c));
+        (u64::from(*cc.pocket()), u64::from(*cc.public()))
+    });
+    part.evaluations += 1;
+    match r {
+        None => part.fail("canon-of-canon-panics", &input, &format!("{cp} {cb}"), "panic"),
+        Some(cc) => {
+            if cc != (cp, cb) {
+                part.fail("canon-not-idempotent", &input, &format!("{cp} {cb}"), &format!("{} {}", cc.0, cc.1));
+            }
+        }
+    }
+    if !icc {
+        part.fail("canon-not-recognised", &input, "is_canonical(canon o) = true", "false");
+    }
+    if ico != ((pocket, board) == (cp, cb)) {
+        part.fail("is-canonical-disagrees-with-canon", &input, &format!("is_canonical(o) = (o == canon o) = {}", (pocket, board) == (cp, cb)), &format!("{ico}"));
+    }
+    images.sort();
+    images.dedup();
+    let ncanon = images.iter().filter(|x| x.2).count();
+    if ncanon != 1 {
+        part.fail("orbit-representative-not-unique", &input, "exactly one image recognised as canonical", &format!("{ncanon} of {} distinct images", images.len()));
+    }
+    *part.dist.entry(format!("street={} orbit-size={:02}", street(board.count_ones()), images.len())).or_insert(0) += 1;
+    part.canon.push((cp, cb));
+}
+
+fn cards_of(mask: u64) -> Vec<u8> {
+    (0..64u8).filter(|i| mask >> i & 1 == 1).collect()
+}
+
+fn merge(run: &mut Run, part: Part) {
+    run.evaluations += part.evaluations;
+    run.spec_checked += part.spec_checked;
+    for (op, ans) in &part.lines {
+        run.line(op, ans);
+    }
+    for (k, v) in &part.dist {
+        run.count_n(k, *v);
+    }
+    for c in &part.canon {
+        run.distinct(c);
+    }
+    let extra = part.fail_count - part.fails.len() as u64;
+    for (c, i, e, g) in &part.fails {
+        run.fail(c, i, e, g);
+    }
+    run.failure_count += extra;
+}
+
 fn main() {
-    let a = rpharness::args();
-    let mut run = rpharness::Run::new(&a.out);
-    run.rule = "stub".into();
+    let a = args();
+    let mut rng = Rng::new(a.seed);
+    let mut run = Run::new(&a.out);
+    quiet_panics();
+    let deck: &'static str = if is_shortdeck() { "short" } else { "std" };
+    let full = u64::from(Hand::from(Hand::mask()));
+    let all = cards_of(full);
+
+    // ---- the 24 rows of Permutation::exhaust() are exactly the 24 bijections
+    let mine = s4();
+    let mut table = vec![];
+    let mut rows: Vec<Pi> = vec![];
+    for p in Permutation::exhaust().iter() {
+        run.spec_checked += 1;
+        match digits(p) {
+            Some(d) => {
+                rows.push(d);
+                table.push((*p, d));
+            }
+            None => run.fail("exhaust-row-not-four-suits", &format!("{p}").replace('\n', ";"), "four suit images", "unparsable"),
+        }
+    }
+    let mut sorted = rows.clone();
+    sorted.sort();
+    sorted.dedup();
+    if sorted != mine {
+        run.fail("exhaust-is-not-S4", "Permutation::exhaust()", "the 24 distinct bijections of 4 suits", &format!("{} distinct rows", sorted.len()));
+    }
+    match digits(&Permutation::identity()) {
+        Some([0, 1, 2, 3]) => {}
+        other => run.fail("identity-is-not-identity", "Permutation::identity()", "0123", &format!("{other:?}")),
+    }
+    let ctx = Ctx { deck, table };
+    let allpicks: Vec<usize> = (0..24).collect();
+
+    // ---- pre-flop: exhaustive, every relabeling as a line
+    let mut part = Part::default();
+    for i in 0..all.len() {
+        for j in i + 1..all.len() {
+            let pocket = 1u64 << all[i] | 1u64 << all[j];
+            case(&ctx, &mut part, pocket, 0, true, true, &allpicks);
+        }
+    }
+    merge(&mut run, part);
+
+    // ---- flop: exhaustive in the thorough tier (parallel over pockets; a sample of it as lines)
+    if a.thorough() {
+        let mut pockets = vec![];
+        for i in 0..all.len() {
+            for j in i + 1..all.len() {
+                pockets.push(1u64 << all[i] | 1u64 << all[j]);
+            }
+        }
+        let nthreads = std::thread::available_parallelism().map(|n| n.get()).unwrap_or(4).min(16);
+        let chunks: Vec<Vec<u64>> = (0..nthreads).map(|t| pockets.iter().copied().skip(t).step_by(nthreads).collect()).collect();
+        let ctxr = &ctx;
+        let allr = &all;
+        let parts: Vec<Part> = std::thread::scope(|s| {
+            let hs: Vec<_> = chunks
+                .iter()
+                .map(|chunk| {
+                    s.spawn(move || {
+                        let mut part = Part::default();
+                        let mut n = 0u64;
+                        for &pocket in chunk {
+                            let rest: Vec<u8> = allr.iter().copied().filter(|c| pocket >> c & 1 == 0).collect();
+                            for x in 0..rest.len() {
+                                for y in x + 1..rest.len() {
+                                    for z in y + 1..rest.len() {
+                                        let board = 1u64 << rest[x] | 1u64 << rest[y] | 1u64 << rest[z];
+                                        n += 1;
+                                        let lines = n % 97 == 0;
+                                        let pick = [(n / 97 % 24) as usize];
+                                        case(ctxr, &mut part, pocket, board, lines, lines, &pick);
+                                    }
+                                }
+                            }
+                            // keep memory bounded: distinct classes are counted per pocket chunk by hash later
+                            if part.canon.len() > 4_000_000 {
+                                part.canon.sort();
+                                part.canon.dedup();
+                            }
+                        }
+                        part.canon.sort();
+                        part.canon.dedup();
+                        part
+                    })
+                })
+                .collect();
+            hs.into_iter().map(|h| h.join().expect("worker")).collect()
+        });
+        for p in parts {
+            merge(&mut run, p);
+        }
+    }
+
+    // ---- random flop / turn / river
+    let nrandom = if a.thorough() { 1_500_000 } else { 300_000 };
+    let mut part = Part::default();
+    for k in 0..nrandom {
+        let n = [3usize, 4, 5][(k % 3) as usize];
+        // one case in eight is drawn from few ranks / few suits so that tied suits are common
+        let pool = if k % 8 == 7 {
+            let r0 = rng.below(all.len() as u64 / 4 - 2) as usize * 4;
+            let sub: u64 = all[r0..r0 + 12].iter().fold(0, |acc, c| acc | 1u64 << c);
+            sub
+        } else {
+            full
+        };
+        let pocket = rng.cards(2, pool);
+        let board = rng.cards(n, pool & !pocket);
+        let picks = [rng.below(24) as usize, rng.below(24) as usize];
+        case(&ctx, &mut part, pocket, board, k % 3 == 0, true, &picks);
+        if part.lines.len() > 200_000 {
+            let p = std::mem::take(&mut part);
+            merge(&mut run, p);
+        }
+    }
+    merge(&mut run, part);
+
+    run.exhaustive = false;
+    run.rule = format!(
+        "deck={deck}: all {} pre-flop observations x all 24 relabelings (exhaustive, every image a correspondence line){} + {nrandom} random flop/turn/river observations (1/8 drawn from three adjacent ranks so that tied suits are frequent) x all 24 relabelings through the real permute/Isomorphism::from/is_canonical; correspondence lines: canon of every pre-flop and every third random observation + all 24 (pre-flop) or 2 random (post-flop) permute images; oracle on all 24 images of every observation; distinct_nontrivial = distinct canonical forms reached; exhaustive for pre-flop{}, sampled for the later streets",
+        all.len() * (all.len() - 1) / 2,
+        if a.thorough() { " + all flop observations x 24 (exhaustive, oracle on all, 1/97 as correspondence lines)" } else { "" },
+        if a.thorough() { " and flop" } else { "" },
+    );
     run.finish();
 }
